@@ -326,7 +326,7 @@ func runC08Copy(c *Ctx, gname string) {
 					bad = append(bad, fmt.Sprintf("%s: append onto %s, a (re)slice of the cached per-type info: the appended elements are written into the array shared by all later calls", p.Pos(instrPos(e.Site)), shorten(inner, 100)))
 					continue
 				}
-				if strings.Contains(k0, "getCacheStructType(") || strings.Contains(k0, "cached(") {
+				if cachedRooted(k0) {
 					bad = append(bad, fmt.Sprintf("%s: store into %s, which is memory of the cached per-type info shared by all later calls", p.Pos(instrPos(e.Site)), shorten(keyOf(e.Args[0]), 100)))
 				}
 			}
@@ -535,4 +535,45 @@ func runC08Publish(c *Ctx, g *ssa.Global, users []*ssa.Function) {
 	if n == 0 {
 		c.OK("C08-PUBLISH", "-", "no-store", token.NoPos, "the cache is never stored to (trivially complete)")
 	}
+}
+
+// cachedRooted: does a memory key denote memory of the cached per-type value? The key is an access path;
+// its root is what stands before the first selector/index at parenthesis depth 0. A key whose root is the
+// RESULT of another call (ValidNamesSplit(… cached.validNames …)[i]) merely mentions cached data among that
+// call's arguments: the memory is the call's own result.
+func cachedRooted(k string) bool {
+	k = strings.TrimLeft(k, "&*")
+	if !strings.Contains(k, "getCacheStructType(") && !strings.Contains(k, "cached(") {
+		return false
+	}
+	for _, root := range []string{"(*valid.VStruct).getCacheStructType(", "cached(", "φ:"} {
+		if strings.HasPrefix(k, root) {
+			return true
+		}
+	}
+	// root = a call of something else: find its name
+	if i := strings.Index(k, "("); i > 0 {
+		head := k[:i]
+		if strings.HasPrefix(k, "(") { // method expression "(T).m("
+			if j := strings.Index(k, ")."); j > 0 {
+				if l := strings.Index(k[j:], "("); l > 0 {
+					head = k[:j+l]
+				}
+			}
+		}
+		switch {
+		case strings.HasSuffix(head, "getCacheStructType"), head == "cached":
+			return true
+		case strings.HasPrefix(head, "valid.") || strings.HasPrefix(head, "strings.") || strings.HasPrefix(head, "(valid.") || strings.HasPrefix(head, "(*valid."):
+			// result of a repository / library function applied to cached data: its own memory, unless the function
+			// hands back (part of) its argument
+			for _, alias := range []string{"valid.RemoveValuePtr", "valid.aliasOf"} {
+				if head == alias {
+					return true
+				}
+			}
+			return false
+		}
+	}
+	return true
 }
